@@ -176,6 +176,7 @@ def write_evidence(prop, tier, seed, ctx, meta, wall, n_viol, selftest=None, ext
         "rules": per_rule,
         "analysed": ctx.analysed,
         "modules": {ctx.repo.paths[m]: ctx.repo.digest[m] for m in sorted(ctx.repo.modules)},
+        "read_in_reference_spelling": {m: q for m, q in sorted(getattr(ctx.repo, "restored", {}).items())},
         "trusted_base": meta.get("trusted_base", []) + ctx.trusted,
         "checker_cmd": f"./check {prop} --tier {tier}",
         "exhaustive": bool(meta.get("exhaustive", False)),
